@@ -91,17 +91,20 @@ pub fn facts() -> Vec<(&'static str, &'static str, bool, bool)> {
     fact!("Iter<Rc<u8>, i32>", Iter<'static, Local, i32>, false, false);
     fact!("Iter<Cell<u8>, i32>", Iter<'static, Celled, i32>, false, false);
     fact!("Iter<MutexGuard<u8>, i32>", Iter<'static, Pinned, i32>, true, true);
-    // lending &mut I (and rebuilding through &mut queue on drop): Send iff everything is Send,
-    // Sync iff everything is Sync
-    fact!("priority_queue::IterMut<u8, i32>", PIterMut<'static, u8, i32, H>, true, true);
+    // IterMut lends `&'a mut I` / `&'a mut P` that outlive it (they are bound to the borrow of the
+    // queue, not of the iterator) and its Drop re-reads every priority: if the iterator could be
+    // sent to another thread, that thread's drop would race with writes the sending thread makes
+    // through references it kept (found by a bug-hunting sub-agent with Miri's data-race
+    // detector). So it must never be Send, whatever the parameters; Sync is harmless (`&IterMut`
+    // only exposes `len`/`size_hint`) and not required.
+    fact!("priority_queue::IterMut<u8, i32>", PIterMut<'static, u8, i32, H>, false, true);
     fact!("priority_queue::IterMut<Rc<u8>, i32>", PIterMut<'static, Local, i32, H>, false, false);
     fact!("priority_queue::IterMut<MutexGuard<u8>, i32>", PIterMut<'static, Pinned, i32, H>, false, true);
-    fact!("priority_queue::IterMut<Cell<u8>, i32>", PIterMut<'static, Celled, i32, H>, true, false);
-    fact!("priority_queue::IterMut<u8, i32, Rc-holding hasher>", PIterMut<'static, u8, i32, std::hash::BuildHasherDefault<LocalHasher>>, true, true);
-    fact!("double_priority_queue::IterMut<u8, i32>", DIterMut<'static, u8, i32, H>, true, true);
+    fact!("priority_queue::IterMut<Cell<u8>, i32>", PIterMut<'static, Celled, i32, H>, false, false);
+    fact!("double_priority_queue::IterMut<u8, i32>", DIterMut<'static, u8, i32, H>, false, true);
     fact!("double_priority_queue::IterMut<Rc<u8>, i32>", DIterMut<'static, Local, i32, H>, false, false);
     fact!("double_priority_queue::IterMut<MutexGuard<u8>, i32>", DIterMut<'static, Pinned, i32, H>, false, true);
-    fact!("double_priority_queue::IterMut<Cell<u8>, i32>", DIterMut<'static, Celled, i32, H>, true, false);
+    fact!("double_priority_queue::IterMut<Cell<u8>, i32>", DIterMut<'static, Celled, i32, H>, false, false);
     v
 }
 
